@@ -20,6 +20,8 @@ namespace vw
     IRunner* make_runner_raster_queen_nc();
     IRunner* make_runner_raster_rook_nc();
     IRunner* make_runner_trimesh();
+    IRunner* make_runner_profile_nc();
+    IRunner* make_runner_raster_bishop_nc();
     IRunner* get_runner(int kind)
     {
         static IRunner* r[G_COUNT] = {};
@@ -47,6 +49,12 @@ namespace vw
                 case G_RASTER_ROOK_NC:
                     r[kind] = make_runner_raster_rook_nc();
                     break;
+                case G_PROFILE_NC:
+                    r[kind] = make_runner_profile_nc();
+                    break;
+                case G_RASTER_BISHOP_NC:
+                    r[kind] = make_runner_raster_bishop_nc();
+                    break;
                 default:
                     r[kind] = make_runner_trimesh();
             }
@@ -63,6 +71,23 @@ namespace
     vh::Args g_args;
     vh::Aggregate g_agg;
     int g_mode = 10;
+
+    // Grid family of a run. The first draw is over the seven original families, so that the worlds older
+    // seeds generate for them are unchanged; the cache-less profile and bishop grids take over a share of
+    // their cached counterparts' runs.
+    int draw_kind(Rng& wr)
+    {
+        int kind = static_cast<int>(wr.below(vw::G_TRIMESH + 1));
+        if (g_mode == vw::MODE_C10 && wr.chance(0.3))
+            kind = wr.chance(0.5) ? vw::G_TRIMESH : (wr.chance(0.5) ? vw::G_RASTER_QUEEN_NC : vw::G_RASTER_ROOK_NC);
+        if (g_mode == vw::MODE_C07 && kind == vw::G_TRIMESH)
+            kind = vw::G_RASTER_QUEEN;
+        if (kind == vw::G_PROFILE && wr.chance(0.4))
+            kind = vw::G_PROFILE_NC;
+        else if (kind == vw::G_RASTER_BISHOP && wr.chance(0.4))
+            kind = vw::G_RASTER_BISHOP_NC;
+        return kind;
+    }
 
     struct Current
     {
@@ -344,11 +369,7 @@ int main(int argc, char** argv)
             g_cur.replaying = true;
             Rng wr;
             wr.seed(vsim::mix64(seed, run * 2 + 1));
-            int kind = static_cast<int>(wr.below(vw::G_COUNT));
-            if (g_mode == vw::MODE_C10 && wr.chance(0.3))
-                kind = wr.chance(0.5) ? vw::G_TRIMESH : (wr.chance(0.5) ? vw::G_RASTER_QUEEN_NC : vw::G_RASTER_ROOK_NC);
-            if (g_mode == vw::MODE_C07 && kind == vw::G_TRIMESH)
-                kind = vw::G_RASTER_QUEEN;
+            int kind = draw_kind(wr);
             g_cur.spec.grid.kind = kind;
             vh::print_begin(run);
             begin_window();
@@ -389,11 +410,7 @@ int main(int argc, char** argv)
         g_cur = Current();
         g_cur.seed = g_args.seed;
         g_cur.res.run = run;
-        int kind = static_cast<int>(wr.below(vw::G_COUNT));
-        if (g_mode == vw::MODE_C10 && wr.chance(0.3))
-            kind = wr.chance(0.5) ? vw::G_TRIMESH : (wr.chance(0.5) ? vw::G_RASTER_QUEEN_NC : vw::G_RASTER_ROOK_NC);
-        if (g_mode == vw::MODE_C07 && kind == vw::G_TRIMESH)
-            kind = vw::G_RASTER_QUEEN;
+        int kind = draw_kind(wr);
         g_cur.spec.grid.kind = kind;
         vh::print_begin(run);
         begin_window();
